@@ -147,7 +147,7 @@ def gen_ops_random(rng, n):
 def corr_scope(ck, drv):
     rng = ck.rng
     pick = getattr(ck, "_c02_pick", ck.pick)
-    cases = list(gen_ops_exhaustive(pick(3, 4)))
+    cases = list(gen_ops_exhaustive(ck.pick(3, 4)))
     n_exh = len(cases)
     # use names returned by enum/maybe_enum in later ops: generate, run real, splice results in
     for _ in range(pick(600, 6000)):
@@ -564,17 +564,18 @@ def run(ck: core.Check):
 
         cur, diff = SRC.changed()
         ck.cov["covered_sources"] = {"functions_hashed": len(cur), "differ_from_baseline": diff[:40],
-                                     "escalated_to_thorough_counts": bool(diff) and not ck.thorough}
+                                     "escalated_generation_counts_x2.5": bool(diff) and not ck.thorough}
     except Exception as e:  # noqa: BLE001
         diff = ["<hashing failed>"]
         ck.cov["covered_sources"] = {"error": f"{type(e).__name__}: {e}"}
-    big = ck.thorough or bool(diff)
+    escalated = bool(diff) and not ck.thorough
     if diff and not ck.thorough:
         ck.log(f"covered sources changed ({len(diff)}: {', '.join(diff[:4])}{' ...' if len(diff) > 4 else ''}) "
-               "-> thorough generation counts")
+               "-> 2.5x generation counts")
 
     def pick(q, t):
-        return t if big else q
+        # (the full thorough counts would take the quick tier far beyond its time budget on a loaded machine)
+        return t if ck.thorough else (min(t, int(q * 2.5)) if escalated else q)
 
     ck._c02_pick = pick
     try:
